@@ -13,7 +13,7 @@
 From MM Require Import Base.Num Base.GFSum Model.Choose Model.Binom Model.QuantileCI Check.C06 Check.C11
   Proofs.Binom Proofs.QuantileCI Proofs.QuantileCISet Proofs.QuantileCIScale Proofs.QuantileCISetScale
   Proofs.QuantileCIGraph Proofs.QuantileCIMembers Proofs.C06Table Proofs.CheckBase.
-From Coq Require Import Qround Lia Lqa Qabs.
+From Coq Require Import Qround Lia Lqa Qabs Sorted Permutation.
 Local Open Scope Q_scope.
 
 (* ====================================================================== *)
@@ -215,6 +215,67 @@ Proof.
     apply Z.eqb_neq in K1. apply Z.eqb_neq in K2. unfold V_OK, V_BORDERLINE in *. lia.
 Qed.
 
+(* ---------- nesting, on the observations of one line ---------- *)
+Definition nest_in (a b : Q * qobs) : Prop := (o_lo (snd b) <= o_lo (snd a))%Z /\ (o_hi (snd a) <= o_hi (snd b))%Z.
+Definition same_iv (a b : Q * qobs) : Prop := o_lo (snd a) = o_lo (snd b) /\ o_hi (snd a) = o_hi (snd b).
+Definition nest_rel (a b : Q * qobs) : Prop := nest_in a b /\ (fst b <= fst a -> same_iv a b).
+
+Lemma nested_chain_head : forall t a, nested_chain (a :: t) = true ->
+  StronglySorted (fun x y => fst x <= fst y) (a :: t) -> Forall (nest_rel a) t.
+Proof.
+  induction t as [|b t IH]; intros a H S; [constructor|].
+  cbn [nested_chain] in H. apply andb_prop in H as [H Hc]. apply andb_prop in H as [H H3].
+  apply andb_prop in H as [H1 H2]. apply Z.leb_le in H1. apply Z.leb_le in H2.
+  inversion S as [|? ? St Fa]; subst. inversion Fa as [|? ? Hab Fat]; subst.
+  assert (Rab : nest_rel a b).
+  { split; [split; assumption|]. intros Hba.
+    apply orb_prop in H3 as [H3|H3].
+    - apply Bool.negb_true_iff in H3. apply Qle_bool_false in H3. lra.
+    - apply andb_prop in H3 as [E1 E2]. apply Z.eqb_eq in E1. apply Z.eqb_eq in E2. split; assumption. }
+  constructor; [exact Rab|].
+  specialize (IH b Hc St). rewrite Forall_forall in IH, Fat |- *. intros y Hy.
+  destruct (IH y Hy) as [[N1 N2] Sy]. destruct Rab as [[M1 M2] Sb].
+  inversion St as [|? ? _ Fbt]; subst. rewrite Forall_forall in Fbt. pose proof (Fbt y Hy) as Hby.
+  split; [split; lia|]. intros Hya.
+  destruct (Sb ltac:(lra)) as [X1 X2]. destruct (Sy ltac:(lra)) as [Y1 Y2]. split; congruence.
+Qed.
+
+Lemma nested_chain_pairs : forall s, nested_chain s = true ->
+  StronglySorted (fun x y => fst x <= fst y) s -> ForallOrdPairs nest_rel s.
+Proof.
+  induction s as [|a t IH]; intros H S; [constructor|].
+  constructor; [apply nested_chain_head; assumption|].
+  apply IH; [|inversion S; assumption].
+  destruct t as [|b t']; [reflexivity|]. cbn [nested_chain] in H. apply andb_prop in H as [_ H]. exact H.
+Qed.
+
+Lemma StronglySorted_weaken {A} (R R' : A -> A -> Prop) : (forall x y, R x y -> R' x y) ->
+  forall l, StronglySorted R l -> StronglySorted R' l.
+Proof.
+  intros HR. induction 1 as [|a l S IH F]; constructor; [exact IH|].
+  rewrite Forall_forall in F |- *. intros y Hy. apply HR. apply F. exact Hy.
+Qed.
+
+Lemma nested_ok_sound : forall items, nested_ok items = true ->
+  forall a b, In a items -> In b items -> fst a <= fst b -> nest_in a b.
+Proof.
+  intros items H a b Ha Hb Hab. unfold nested_ok in H.
+  pose proof (ItemSort.Permuted_sort items) as Pm.
+  assert (S : StronglySorted (fun x y => fst x <= fst y) (ItemSort.sort items)).
+  { assert (T : Transitive (fun x y : Q * qobs => is_true (ItemOrder.leb x y))).
+    { intros x y z. unfold ItemOrder.leb, is_true. rewrite !Qle_bool_iff. apply Qle_trans. }
+    pose proof (ItemSort.StronglySorted_sort items T) as S0.
+    eapply StronglySorted_weaken; [|exact S0].
+    intros x y Hxy. unfold ItemOrder.leb, is_true in Hxy. apply Qle_bool_iff in Hxy. exact Hxy. }
+  pose proof (nested_chain_pairs _ H S) as FP.
+  assert (Ha' : In a (ItemSort.sort items)) by (eapply Permutation_in; eassumption).
+  assert (Hb' : In b (ItemSort.sort items)) by (eapply Permutation_in; eassumption).
+  destruct (ForallOrdPairs_In FP a b Ha' Hb') as [E|[R|R]].
+  - subst b. split; lia.
+  - destruct R as [N _]. exact N.
+  - destruct R as [[N1 N2] Sm]. destruct (Sm Hab) as [E1 E2]. split; lia.
+Qed.
+
 (* the parser of an op-0 line (the same term as in check_C11) *)
 Definition p_op0 : parser (Z * Z * list (Q * qobs)) :=
   do n <- pZ; do qb <- pZ; do items <- plist (do c <- pQ; do o <- p_qobs; pret (c, o)); pend (n, qb, items).
@@ -230,7 +291,8 @@ Theorem check_C11_op0_sound : forall rest, accepted (check_C11 (11%Z :: 0%Z :: r
   exists n qb items q,
     p_op0 rest = Some ((n, qb, items), []) /\ decode_bits qb = XFin q /\
     (1 <= n <= 30)%Z /\ 0 <= q <= 1 /\
-    Forall (small_item_ok n qb q (exact_regime n q)) items.
+    Forall (small_item_ok n qb q (exact_regime n q)) items /\
+    (forall a b, In a items -> In b items -> fst a <= fst b -> nest_in a b).
 Proof.
   intros rest H. cbn [check_C11] in H.
   change (do n <- pZ; do qb <- pZ; do items <- plist (do c <- pQ; do o <- p_qobs; pret (c, o)); pend (n, qb, items))
@@ -250,7 +312,9 @@ Proof.
   apply Z.eqb_eq in Gd.
   match type of H with accepted (match ?t with Some _ => _ | None => _ end) => destruct t as [g|] eqn:Hg end;
     [|apply accepted_verdict in H; unfold V_MALFORMED in H; lia].
+  destruct (nested_ok items) eqn:Hnest; cbn [negb] in H; [|apply accepted_verdict in H; unfold V_MISMATCH in H; lia].
   exists n, qb, items, q. split; [reflexivity|]. split; [exact Eq|]. split; [lia|]. split; [split; assumption|].
+  split; [|apply nested_ok_sound; exact Hnest].
   apply run_small_inv in H. eapply Forall_impl; [|exact H].
   intros [c o] (code & t & dg & E & Hc). cbn [fst snd] in E.
   apply check_small_item_inv in E; [|exact Hc]. destruct E as (E1 & E2 & E3 & E4).
@@ -504,7 +568,8 @@ Theorem check_C11_ok_sound : forall line, accepted (check_C11 line) ->
   exists rest,
     (line = 11%Z :: 0%Z :: rest /\
        exists n qb items q, p_op0 rest = Some ((n, qb, items), []) /\ decode_bits qb = XFin q /\
-         (1 <= n <= 30)%Z /\ 0 <= q <= 1 /\ Forall (small_item_ok n qb q (exact_regime n q)) items) \/
+         (1 <= n <= 30)%Z /\ 0 <= q <= 1 /\ Forall (small_item_ok n qb q (exact_regime n q)) items /\
+         (forall a b, In a items -> In b items -> fst a <= fst b -> nest_in a b)) \/
     (line = 11%Z :: 1%Z :: rest /\ exists cs, p_op1 rest = Some (cs, []) /\ normal_ok cs) \/
     (line = 11%Z :: 2%Z :: rest /\ exists c, p_op2 rest = Some (c, []) /\ sample_ok c).
 Proof.
